@@ -22,31 +22,57 @@ impl Wake for Counter {
 struct Sys {
     r: Option<ByteReader>,
     w: Option<ByteWriter>,
-    rc: Arc<Counter>,
-    wc: Arc<Counter>,
-    rw: Waker,
-    ww: Waker,
+    // Two wakers per side, used alternately (a task may be re-polled with a different waker). The channel must wake
+    // the waker of that side's latest poll that returned `Pending` (`r_reg` / `w_reg`), never an earlier one.
+    rcs: [Arc<Counter>; 2],
+    wcs: [Arc<Counter>; 2],
+    rws: [Waker; 2],
+    wws: [Waker; 2],
+    r_cur: usize,
+    w_cur: usize,
+    r_reg: Option<usize>,
+    w_reg: Option<usize>,
+}
+
+fn total(cs: &[Arc<Counter>; 2]) -> [usize; 2] {
+    [cs[0].0.load(Ordering::SeqCst), cs[1].0.load(Ordering::SeqCst)]
 }
 
 impl Sys {
     fn new(cap: usize) -> Sys {
         let (w, r) = byte_channel(NonZeroUsize::new(cap).unwrap());
-        let rc = Arc::new(Counter(AtomicUsize::new(0)));
-        let wc = Arc::new(Counter(AtomicUsize::new(0)));
+        let mk = || Arc::new(Counter(AtomicUsize::new(0)));
+        let rcs = [mk(), mk()];
+        let wcs = [mk(), mk()];
         Sys {
             r: Some(r),
             w: Some(w),
-            rw: Waker::from(rc.clone()),
-            ww: Waker::from(wc.clone()),
-            rc,
-            wc,
+            rws: [Waker::from(rcs[0].clone()), Waker::from(rcs[1].clone())],
+            wws: [Waker::from(wcs[0].clone()), Waker::from(wcs[1].clone())],
+            rcs,
+            wcs,
+            r_cur: 0,
+            w_cur: 0,
+            r_reg: None,
+            w_reg: None,
         }
     }
 
     fn exec(&mut self, op: &str) -> String {
-        let r0 = self.rc.0.load(Ordering::SeqCst);
-        let w0 = self.wc.0.load(Ordering::SeqCst);
         let parts: Vec<&str> = op.split_whitespace().collect();
+        let by_reader = matches!(parts.first().copied(), Some("read") | Some("dropr"));
+        let polls = matches!(parts.first().copied(), Some("read") | Some("write") | Some("flush") | Some("shutdown"));
+        if polls {
+            if by_reader {
+                self.r_cur ^= 1;
+            } else {
+                self.w_cur ^= 1;
+            }
+        }
+        let r0 = total(&self.rcs);
+        let w0 = total(&self.wcs);
+        let rw = self.rws[self.r_cur].clone();
+        let ww = self.wws[self.w_cur].clone();
         let res: String = match parts.as_slice() {
             ["read", k] => {
                 let k: usize = k.parse().unwrap();
@@ -55,7 +81,7 @@ impl Sys {
                     Some(r) => {
                         let mut store = vec![0u8; k];
                         let mut buf = ReadBuf::new(&mut store);
-                        let mut cx = Context::from_waker(&self.rw);
+                        let mut cx = Context::from_waker(&rw);
                         match Pin::new(r).poll_read(&mut cx, &mut buf) {
                             Poll::Ready(Ok(())) => format!("bytes {}", hex(buf.filled())),
                             Poll::Ready(Err(_)) => "err".into(),
@@ -69,7 +95,7 @@ impl Sys {
                 match self.w.as_mut() {
                     None => "na".into(),
                     Some(w) => {
-                        let mut cx = Context::from_waker(&self.ww);
+                        let mut cx = Context::from_waker(&ww);
                         match Pin::new(w).poll_write(&mut cx, &bs) {
                             Poll::Ready(Ok(n)) => format!("count {}", n),
                             Poll::Ready(Err(_)) => "err".into(),
@@ -81,7 +107,7 @@ impl Sys {
             ["flush"] => match self.w.as_mut() {
                 None => "na".into(),
                 Some(w) => {
-                    let mut cx = Context::from_waker(&self.ww);
+                    let mut cx = Context::from_waker(&ww);
                     match Pin::new(w).poll_flush(&mut cx) {
                         Poll::Ready(Ok(())) => "unit".into(),
                         Poll::Ready(Err(_)) => "err".into(),
@@ -92,7 +118,7 @@ impl Sys {
             ["shutdown"] => match self.w.as_mut() {
                 None => "na".into(),
                 Some(w) => {
-                    let mut cx = Context::from_waker(&self.ww);
+                    let mut cx = Context::from_waker(&ww);
                     match Pin::new(w).poll_shutdown(&mut cx) {
                         Poll::Ready(Ok(())) => "unit".into(),
                         Poll::Ready(Err(_)) => "err".into(),
@@ -126,9 +152,36 @@ impl Sys {
             }
             _ => "bad-op".into(),
         };
-        let r1 = self.rc.0.load(Ordering::SeqCst);
-        let w1 = self.wc.0.load(Ordering::SeqCst);
-        format!("{} wr={} ww={}", res, r1 - r0, w1 - w0)
+        let r1 = total(&self.rcs);
+        let w1 = total(&self.wcs);
+        // a wake-up caused by the OTHER side that hits a waker which is not the one registered by the latest pending
+        // poll is a lost wake-up (the registered one is never woken)
+        let mut stale = false;
+        for i in 0..2 {
+            if !by_reader && r1[i] > r0[i] && self.r_reg != Some(i) {
+                stale = true;
+            }
+            if by_reader && w1[i] > w0[i] && self.w_reg != Some(i) {
+                stale = true;
+            }
+        }
+        // `Pending` with a self-wake is the cooperative budget yielding (the conduit was not reached and stored nothing)
+        if polls && res == "pending" {
+            if by_reader {
+                if r1[self.r_cur] == r0[self.r_cur] {
+                    self.r_reg = Some(self.r_cur);
+                }
+            } else if w1[self.w_cur] == w0[self.w_cur] {
+                self.w_reg = Some(self.w_cur);
+            }
+        }
+        let wr = r1[0] + r1[1] - r0[0] - r0[1];
+        let ww = w1[0] + w1[1] - w0[0] - w0[1];
+        if stale {
+            format!("{} stale wr={} ww={}", res, wr, ww)
+        } else {
+            format!("{} wr={} ww={}", res, wr, ww)
+        }
     }
 }
 
